@@ -117,7 +117,8 @@ def layouts_of(G, toks, default_merged=False):
         if toks[k - 1].startswith("#include") and len(toks[k - 1]) > 8:
             return False                     # corpus form: the whole directive is one token
         return (k >= 2 and toks[k - 2] == "#include") or (k >= 3 and toks[k - 3] == "#include")
-    schemes = {"space": " ", "newline": "\n", "block": " /*c*/ ", "line": " // c\n", "glued": "", "gluedblock": "/*c*/", "doc": " /** { ; \" class **/ "}
+    schemes = {"space": " ", "newline": "\n", "block": " /*c*/ ", "line": " // c\n", "glued": "", "gluedblock": "/*c*/", "doc": " /** { ; \" class **/ ",
+               "punct": " /* a, b -> c < d ) ( = :: */ ", "punctline": " // a, b -> c < d ) ( = ::\n"}
     out = {}
     for name, sp in schemes.items():
         text = ""
@@ -129,14 +130,14 @@ def layouts_of(G, toks, default_merged=False):
                     s = "" if G.glue_ok(toks[k - 1], t) else " "
                 elif name == "gluedblock":
                     s = sp if sep_allowed_comment(k, glued=True) else " "
-                elif name in ("block", "line", "doc"):
+                elif name in ("block", "line", "doc", "punct", "punctline"):
                     s = sp if sep_allowed_comment(k) else " "
                 else:
                     s = sp
                 text += s
             text += t
-        if name in ("block", "line", "doc"):
-            text = sp.lstrip(" ") + text + sp.rstrip(" ") if name != "line" else "// c\n" + text + " // c"
+        if name in ("block", "line", "doc", "punct", "punctline"):
+            text = sp.lstrip(" ") + text + sp.rstrip(" ") if name not in ("line", "punctline") else "// c\n" + text + " // c"
         out[name] = text
     return out
 
